@@ -195,5 +195,25 @@ m("C08", "C08-long-comment-falls-into-line-skip", "R08-comment:skipComments:long
 m("C02", "C02-initcallframe-copy-keeps-top", "R02-copies:LState.initCallFrame", ("state.go", "func (ls *LState) initCallFrame(cf *callFrame) { // +inline-start\n\tif cf.Fn.IsG {\n\t\tls.reg.SetTop(cf.LocalBase + cf.NArgs)", "func (ls *LState) initCallFrame(cf *callFrame) { // +inline-start\n\tif cf.Fn.IsG {\n\t\tif top := cf.LocalBase + cf.NArgs; top > ls.reg.top {\n\t\t\tls.reg.SetTop(top)\n\t\t}"))
 
 m("C17", "C17-findlocal-queries-next-pc", "R17-scope:findLocal:queries-at-Pc-1", ("state.go", "fn.LocalName(no, frame.Pc-1)", "fn.LocalName(no, frame.Pc)"))
+
+# ---- string library (F36-F43)
+m("C14", "C14-match-nil-dropped", "R10-retcount:strMatch:return", ("stringlib.go", "\tif len(mds) == 0 {\n\t\tL.Push(LNil)\n\t\treturn 1\n\t}\n\tmd := mds[0]\n\tnsubs", "\tif len(mds) == 0 {\n\t\tL.Push(LNil)\n\t\treturn 0\n\t}\n\tmd := mds[0]\n\tnsubs"))
+m("C14", "C14-backref-slice-unguarded", "R14-index:recursiveVM:src-slice", ("pm/pm.go", "\t\tif cend < cstart || cend > len(src) {\n\t\t\t// the capture is still open: its end has not been recorded\n\t\t\tpanic(newError(_UNKNOWN, \"invalid capture index\"))\n\t\t}\n", ""))
+m("C14", "C14-gmatch-iter-eq-test", "R14-index:strGmatchIter:index", ("stringlib.go", "\tidx := md.pos\n\tif idx >= len(matches) {\n\t\treturn 0\n\t}\n\tmd.pos += 1\n", "\tidx := md.pos\n\tmd.pos += 1\n\tif idx == len(matches) {\n\t\treturn 0\n\t}\n"))
+m("C15", "C15-byte-end-defaults-to-minus-one", "R15-positions:strByte:end-defaults-to-start", ("stringlib.go", "pose := luaRelativePos(L.OptInt(3, posi), l)", "pose := luaRelativePos(L.OptInt(3, -1), l)"))
+m("C15", "C15-start-position-not-clamped", "R15-positions:luaIndex2StringIndex:upper-clamp-unconditional", ("stringlib.go", "\ti = intMax(0, i)\n\tif i > l {", "\ti = intMax(0, i)\n\tif !start && i > l {"))
+m("C15", "C15-format-string-number-inverted", "R16-errsense:(LString).Format", ("value.go", "if nm, err := parseNumber(string(st)); err == nil {\n\t\t\t// a numeric string is converted", "if nm, err := parseNumber(string(st)); err != nil {\n\t\t\t// a numeric string is converted"))
+m("C16", "C16-tonumber-ignores-error", "R16-errsense:LVAsNumber", ("value.go", "\t\tif num, err := parseNumber(string(lv)); err == nil {\n\t\t\treturn num\n\t\t}", "\t\tnum, _ := parseNumber(string(lv))\n\t\treturn num"))
+
+m("C02", "C02-yield-in-tail-position-removes-caller", "R02-tailframe:callGFunction:yield-in-tail-position-keeps-caller", ("vm.go", "\tif tailcall && gfnret < 0 {\n\t\t// a host function that yields is not tail called after all: the caller's frame stays, the values of\n\t\t// the next resume land where the call was made and the RETURN that follows the TAILCALL hands them on\n\t\tframe.ReturnBase = frame.Base\n\t\tframe.NRet = MultRet\n\t\ttailcall = false\n\t}\n", ""))
+m("C06", "C06-coresume-no-padding", "R06-resumeapi:coResume:pads-resume-values", ("coroutinelib.go", "\t\tth.padResumeValues(nargs)\n", ""))
+m("C06", "C06-resume-api-no-padding", "R06-resumeapi:(*LState).Resume:pads-resume-values", ("state.go", "\t\tth.padResumeValues(len(args))\n", ""))
+
+m("C06", "C06-coresume-normal-not-refused", "R06-guard:coResume:not-normal", ("coroutinelib.go", "\tif L.Status(th) == \"normal\" {\n\t\t// it is waiting for the thread it resumed (an ancestor of the running one)\n", "\tif L.Status(th) == \"normal\" && th.wrapped {\n\t\t// it is waiting for the thread it resumed (an ancestor of the running one)\n"))
+m("C06", "C06-status-direct-parent-only", "R06-guard:Status:normal-walks-resumer-chain", ("state.go", "\t\tfor p := ls.G.CurrentThread; p != nil; p = p.Parent {\n\t\t\tif p.Parent == th {\n\t\t\t\tstatus = \"normal\"\n\t\t\t\tbreak\n\t\t\t}\n\t\t}", "\t\tif ls.Parent == th {\n\t\t\tstatus = \"normal\"\n\t\t}"))
+
+m("C06", "C06-resume-nesting-unbounded", "R06-guard:coResume:nesting-bounded", ("coroutinelib.go", "\tif depth >= maxResumeDepth {\n\t\t// every nested resume runs on the Go stack of its resumer\n\t\tL.RaiseError(\"C stack overflow\")\n\t}\n", "\t_ = depth\n"))
+
+m("C11", "C11-thread-context-from-creator", "R11-threadctx:NewThread:context-from-main-thread", ("state.go", "\t\tthread.ctx, f = context.WithCancel(base)", "\t\t_ = base\n\t\tthread.ctx, f = context.WithCancel(ls.ctx)"))
 if __name__ == "__main__":
     main()
